@@ -94,6 +94,11 @@ class _Push:
     def push_snapshot(self, snapshot):
         self.snapshots.append((snapshot, threading.get_ident()))
         self.drv.effect('snapshot', snapshot)
+        if getattr(self.drv, 'refuse_push', False):
+            # delivery is closed (the agent is being shut down by another thread): the hand-over is refused visibly -
+            # which is the business of this snapshot only
+            from deep.task import IllegalStateException
+            raise IllegalStateException()
 
 
 def tp_args(tp):
@@ -153,6 +158,7 @@ class Scenario:
         self.rig.install_via_service(real)
         for m, rt in zip(self.reg_model, self.reg_real):
             self.reg_ids[self.rig.register(rt)] = m['id']
+        self.refuse_push = any(tp.get('refuse_push') for tp in tps)
         if any(tp.get('hide_source') for tp in tps):
             # the source of the files cannot be loaded any more (generated code, .pyc only, a zipped application)
             import linecache
